@@ -301,3 +301,67 @@ func TypeByName(n string) reflect.Type {
 }
 
 var TimeType = reflect.TypeOf(time.Time{})
+
+// ---- carriers for C07: every Go integer kind in every position
+
+type IntFields struct {
+	I8  int8
+	I16 int16
+	I32 int32
+	I   int
+	I64 int64
+	U8  uint8
+	U16 uint16
+	U32 uint32
+	U   uint
+	U64 uint64
+}
+
+type IntLists struct {
+	I8  []int8
+	I16 []int16
+	I32 []int32
+	I   []int
+	I64 []int64
+	U16 []uint16
+	U32 []uint32
+	U   []uint
+	U64 []uint64
+}
+
+type IntMapKeys struct {
+	I8  map[int8]string
+	I16 map[int16]string
+	I32 map[int32]string
+	I   map[int]string
+	I64 map[int64]string
+	U8  map[uint8]string
+	U16 map[uint16]string
+	U32 map[uint32]string
+	U   map[uint]string
+	U64 map[uint64]string
+}
+
+type IntMapVals struct {
+	I8  map[string]int8
+	I16 map[string]int16
+	I32 map[string]int32
+	I   map[string]int
+	I64 map[string]int64
+	U8  map[string]uint8
+	U16 map[string]uint16
+	U32 map[string]uint32
+	U   map[string]uint
+	U64 map[string]uint64
+}
+
+// ---- carriers for C08
+
+type FloatFields struct {
+	F32 float32
+	F64 float64
+	L32 []float32
+	L64 []float64
+	M64 map[string]float64
+	M32 map[string]float32
+}
